@@ -11,6 +11,8 @@ pub mod intr;
 #[cfg(not(miri))]
 pub mod mon;
 #[cfg(not(miri))]
+pub mod origins;
+#[cfg(not(miri))]
 pub mod stream;
 #[cfg(not(miri))]
 pub mod timed;
